@@ -51,14 +51,16 @@ def keysOf (prop : String) : List String :=
   if prop == "C04" then ["n"]
   else if prop == "C05" then ["n", "held", "persisted", "maxkept", "dropped", "mindropped"]
   else if prop == "C06" then ["radius", "maxkept"]
+  else if prop == "C17" then ["n", "persisted", "radius", "maxkept"]
   else ["n", "held", "persisted", "radius", "maxkept", "dropped", "mindropped"]
 
 def clausesOf (prop : String) : List String :=
   if prop == "C04" then ["get_only_put", "returned_bytes_stable", "put_error"]
   else if prop == "C05" then ["counter_ge_held", "held_le_cap", "prune_frees_5pct", "farthest_first", "put_error", "counter_ge_held_concurrent"]
   else if prop == "C06" then ["retained_within_radius", "radius_antitone", "refusal_exact"]
+  else if prop == "C17" then ["open_radius_max_when_empty", "counter_ge_held"]
   else ["get_only_put", "returned_bytes_stable", "put_error", "counter_ge_held", "held_le_cap", "prune_frees_5pct",
-        "farthest_first", "retained_within_radius", "radius_antitone", "refusal_exact"]
+        "farthest_first", "retained_within_radius", "radius_antitone", "refusal_exact", "open_radius_max_when_empty"]
 
 def stepAll (d : DS) (toks : List String) (impl : String) : DS × Res :=
   let it := words impl
@@ -72,8 +74,7 @@ def stepAll (d : DS) (toks : List String) (impl : String) : DS × Res :=
     let id := unhex (kv toks "id")
     let key := xorKey id d.node
     let len := kvNat toks "len"
-    let v := genBytes len (kvNat toks "seed")
-    let x : Item := { be := beVal key, le := leVal key, len := len, val := fnv v }
+    let x : Item := { be := beVal key, le := leVal key, len := len, val := fnvGen len (kvNat toks "seed") }
     let preHeld := held d.st.items
     let r := put d.le d.st x
     let res := match r.2 with | .ok => "ok" | .insufficientRadius => "insufficient_radius"
@@ -120,6 +121,7 @@ def stepAll (d : DS) (toks : List String) (impl : String) : DS × Res :=
     let maxKept := kv it "maxkept"
     let mon := (if kvNat it "persisted" < kvNat it "held" then ["counter_ge_held"] else [])
       ++ (if maxKept != "-" && beVal (unhex maxKept) > radius then ["retained_within_radius"] else [])
+      ++ (if maxKept == "-" && radius != maxRadius then ["open_radius_max_when_empty"] else [])
     ({ d with st := s', prevRadius := radius }, { model := "ok " ++ snap s', monitor := mon, tags := ["reopen"] })
   | some "conc" =>
     -- two puts as the atomic steps the code has; the schedule is an input (forced through the yield hook)
